@@ -13,12 +13,30 @@
 #ifndef VF_N
 #define VF_N 4
 #endif
-static int vf_cb(YR_SCAN_CONTEXT* c, int msg, void* data, void* ud) { return CALLBACK_CONTINUE; }
-
 #define SNAP(x) static uint8_t snap_##x[sizeof(x)]
 SNAP(IMG_sz); SNAP(IMG_code); SNAP(IMG_re_code); SNAP(IMG_ns); SNAP(IMG_rules); SNAP(IMG_strings); SNAP(IMG_ext);
 SNAP(IMG_ac_pool); SNAP(IMG_ac_trans); SNAP(IMG_ac_match_table); SNAP(IMG_no_required); SNAP(IMG_rules_obj);
 SNAP(yr_lowercase); SNAP(yr_altercase);
+
+#ifdef VF_DURING
+/* -DVF_DURING: the frame condition is ALSO checked from inside the scan - at every callback message (too-many-matches
+ * warning answered with CONTINUE, rule messages, scan-finished), i.e. at points where another thread's scan may be
+ * running: state that is written during a scan and restored at its end is a shared write all the same.
+ * Built with the matches-per-string limit scaled to 3 (code's own #ifndef, image build and harness alike). */
+static size_t vf_during_i_strings, vf_during_i_rules, vf_during_i_obj;
+static int vf_cb_calls, vf_tmm_calls;
+#endif
+static int vf_cb(YR_SCAN_CONTEXT* c, int msg, void* data, void* ud)
+{
+#ifdef VF_DURING
+  vf_cb_calls++;
+  if (msg == CALLBACK_MSG_TOO_MANY_MATCHES) vf_tmm_calls++;
+  VF_ASSERT(snap_IMG_strings[vf_during_i_strings] == ((const uint8_t*) &IMG_strings)[vf_during_i_strings], "shared strings table unchanged while a scan is running");
+  VF_ASSERT(snap_IMG_rules[vf_during_i_rules] == ((const uint8_t*) &IMG_rules)[vf_during_i_rules], "shared rules table unchanged while a scan is running");
+  VF_ASSERT(snap_IMG_rules_obj[vf_during_i_obj] == ((const uint8_t*) &IMG_rules_obj)[vf_during_i_obj], "YR_RULES unchanged while a scan is running");
+#endif
+  return CALLBACK_CONTINUE;
+}
 
 int main(void)
 {
@@ -31,7 +49,13 @@ int main(void)
   static vf_scanner A, B, Bsnap;
   YR_MEMORY_BLOCK_ITERATOR itA;
   static vf_iter_ctx cA;
+#ifdef VF_DURING
+  int flags = SCAN_FLAGS_REPORT_RULES_MATCHING | SCAN_FLAGS_REPORT_RULES_NOT_MATCHING;
+  vf_during_i_strings = vf_u32(); vf_during_i_rules = vf_u32(); vf_during_i_obj = vf_u32();
+  VF_ASSUME(vf_during_i_strings < sizeof(IMG_strings) && vf_during_i_rules < sizeof(IMG_rules) && vf_during_i_obj < sizeof(IMG_rules_obj));
+#else
   int flags = SCAN_FLAGS_REPORT_RULES_MATCHING | SCAN_FLAGS_REPORT_RULES_NOT_MATCHING | (vf_bool() ? SCAN_FLAGS_FAST_MODE : 0);
+#endif
   vf_scanner_init(&A, &IMG_rules_obj, vf_cb, flags);
   vf_scanner_init(&B, &IMG_rules_obj, vf_cb, flags);
   memcpy(&Bsnap, &B, sizeof(B));
@@ -58,6 +82,10 @@ int main(void)
     VF_ASSUME(i_ < sizeof(B));
     VF_ASSERT(((const uint8_t*) &Bsnap)[i_] == ((const uint8_t*) &B)[i_], "another scanner over the same rules is untouched");
   }
+#ifdef VF_DURING
+  VF_ASSERT(vf_cb_calls >= 2, "the callback (and the frame check in it) ran for the rule and for scan-finished");
+  if (vf_tmm_calls > 0) VF_WITNESS("a string was muted by the matches limit during the scan");
+#endif
   VF_WITNESS("end");
   return 0;
 }
